@@ -283,6 +283,13 @@ class Ref:
         if k == "dc":
             return self.lift([E(x) for x in node[1]], lambda x, y: D(x, y))
         if k == "op":
+            from .progs import is_lazy_top
+
+            if node[1] == "<" and not is_lazy_top(node[2]) and is_lazy_top(node[3]):
+                # `plain < lazy`: Python asks the lazy right operand for its reflected
+                # comparison, so what the scheduler evaluates is `right > left` (the same truth
+                # value; a different TypeError message for ill-typed operands)
+                return self.lift([E(node[2]), E(node[3])], lambda a, b: b > a)
             return self.lift([E(node[2]), E(node[3])], OPS[node[1]])
         if k == "idx":
             inner = node[1]
